@@ -346,7 +346,7 @@ pub fn run(tier: &str, slice: (u64, u64), seed: u64) -> WorkerResult {
     let mut j = 0u64;
     // same history sets as the CRASH engine, Sync mode only
     for sr in crash::plan(tier).into_iter().filter(|s| !s.cfg.async_mode) {
-        let depth = if tier == "quick" { sr.depth } else { sr.depth.min(3) };
+        let depth = sr.depth;
         let total = ops::seq_count(&sr.alphabet, depth);
         for i in 0..total {
             j += 1;
